@@ -125,7 +125,7 @@ func main() {
 			continue
 		}
 		flags := []string{"nnnn", "nnnt", "fttn", "ntnn", "nntn"}[r.Intn(5)]
-		encName := []string{"i32", "s16", "none", "raw", "i32"}[r.Intn(5)]
+		encName := []string{"i32", "s16", "none", "raw", "i32", "te7", "te7"}[r.Intn(7)]
 		cs := ft.NewCase(r, ks, flags, encName)
 		line := cs.Line()
 		if a := lp.Exec(line); a != "ok" {
